@@ -83,6 +83,21 @@ class _Ticks(ast.NodeTransformer):
     visit_For = _loop
     visit_While = _loop
 
+    def _comp(self, node):
+        """comprehensions are loops too: the element expression e becomes (tick, e)[1]"""
+        self.generic_visit(node)
+        q = self._qual()
+        if (self.modname, q) in TICK_LOOPS:
+            tick = ast.Call(ast.Name('_vf_tick_', ast.Load()), [ast.Constant(f'{q}:loop@{node.lineno}c')], [])
+            node.elt = ast.Subscript(ast.Tuple([tick, node.elt], ast.Load()), ast.Constant(1), ast.Load())
+            ast.copy_location(node.elt, node)
+            ast.fix_missing_locations(node.elt)
+        return node
+
+    visit_ListComp = _comp
+    visit_GeneratorExp = _comp
+    visit_SetComp = _comp
+
 
 def _tick(key):
     from .sym import _CTX
